@@ -381,6 +381,10 @@ func TestC15Race(t *testing.T) {
 					x = x*6364136223846793005 + 1442695040888963407
 					// a few hot names so that goroutines collide on the same entry
 					name := names[int(x>>33)%8*(len(names)/8)%len(names)]
+					if x>>29&1 == 1 {
+						// and every other name, so that each name's first lookup of either kind falls into the concurrent phase
+						name = names[int(x>>35)%len(names)]
+					}
 					masked := x>>20&1 == 1
 					// spelled in a case pattern drawn from the stream: many spellings are looked up for the first time
 					// while other goroutines are inside the registry
